@@ -176,7 +176,7 @@ fn setup(ci: u64, rng: &mut Rng) -> Option<Setup> {
         b.build().as_bytes().to_vec()
     };
     let lock9 = builder::lock_with_args(&gi, &[9]);
-    let g_caps: Vec<u64> = [1023usize, 1024, 1025].iter().map(|n| builder::occupied(&lock9, &None, 4 + n * 36) + 1_0000_0000).collect();
+    let g_caps: Vec<u64> = [1023usize, 1024, 1025, 1022].iter().map(|n| builder::occupied(&lock9, &None, 4 + n * 36) + 1_0000_0000).collect();
     let s3_in = cap_of(&issued[2].1) + cap_of(&issued[3].1);
     let s3 = if s3_in > g_caps.iter().sum::<u64>() + 100_0000_0000 {
         Some(builder::build_tx(
@@ -186,6 +186,7 @@ fn setup(ci: u64, rng: &mut Rng) -> Option<Setup> {
                 mk_out(g_caps[0], lock9.clone(), big_group(1023)),
                 mk_out(g_caps[1], lock9.clone(), big_group(1024)),
                 mk_out(g_caps[2], lock9.clone(), big_group(1025)),
+                mk_out(g_caps[3], lock9.clone(), big_group(1022)),
                 mk_out(s3_in - g_caps.iter().sum::<u64>() - 200_000, builder::lock_with_args(&gi, &[8]), vec![]),
             ],
             &[],
@@ -196,7 +197,7 @@ fn setup(ci: u64, rng: &mut Rng) -> Option<Setup> {
         None
     };
     if let Some(s3) = &s3 {
-        for i in 0..4u32 {
+        for i in 0..5u32 {
             tg.keep.insert((h(&s3.hash()), i));
         }
     }
@@ -371,6 +372,12 @@ fn setup(ci: u64, rng: &mut Rng) -> Option<Setup> {
         add("valid.dep_expansion_exactly_at_limit", simple((out_point(&k), 0), cap_of(&c), FEE, &[grp(0), grp(1)], &[]), true, Some(true));
         let (k, c) = next_cell()?;
         add("resolve.dep_expansion_one_over_limit", simple((out_point(&k), 0), cap_of(&c), FEE, &[grp(0), grp(2)], &[]), false, Some(false));
+        // the same boundary with a dep group the node resolves from its pre-resolved system-cell
+        // cache (the genesis secp256k1 group expands to 2 cells): 1 + 2 + 1023 + 1022 = 2048
+        let (k, c) = next_cell()?;
+        add("valid.dep_expansion_at_limit_with_system_dep_group", simple((out_point(&k), 0), cap_of(&c), FEE, &[gi.secp_dep_group.clone(), grp(0), grp(3)], &[]), true, Some(true));
+        let (k, c) = next_cell()?;
+        add("resolve.dep_expansion_over_limit_with_system_dep_group", simple((out_point(&k), 0), cap_of(&c), FEE, &[gi.secp_dep_group.clone(), grp(1), grp(3)], &[]), false, Some(false));
     }
     // header deps
     {
@@ -844,6 +851,7 @@ pub fn run(args: &Args) -> i32 {
     let deadline = Instant::now() + Duration::from_secs(args.get_u64("budget_s", args.tier.pick(90, 1100)));
     let mut ci = 0u64;
     let mut done = 0u64;
+    let mut system_cell_cache = false;
     while done < n_ctx && ci < n_ctx * 4 {
         ci += 1;
         if Instant::now() > deadline {
@@ -867,6 +875,14 @@ pub fn run(args: &Args) -> i32 {
             c04.inconclusive("harness: node did not reach the context tip");
             continue;
         };
+        // `ckb run` pre-resolves the genesis system cells into a process-wide cache
+        // (SYSTEM_CELL) that the resolver consults first; the first half of the contexts runs
+        // without it (as every library user does), the second half with it (as the node does)
+        if done > n_ctx / 2 && !system_cell_cache {
+            let _ = ckb_types::core::cell::setup_system_cell_cache(s.gi.consensus.genesis_block(), n1.shared.snapshot().as_ref());
+            system_cell_cache = true;
+        }
+        c14.count(if system_cell_cache { "contexts_with_system_cell_cache" } else { "contexts_without_system_cell_cache" });
         // detour: reverse order makes everything arrive as orphans first, then connect
         let n2 = boot_synced(&s, &detour, None);
         // switch-back: the main chain loses to the side branch and wins again
@@ -918,6 +934,13 @@ pub fn run(args: &Args) -> i32 {
             c04.eval();
             c04.count(&format!("candidates.{}", c.name));
             c04.distinct_str(&format!("{}|{}|block", c.name, class));
+            if accepted != c.valid && c.name.contains("system_dep_group") {
+                c14.violation(
+                    &format!("system_cell_cache_changes_verdict@{}", c.name),
+                    format!("candidate `{}`: resolution through the pre-resolved system-cell cache gives {} where counting every expanded dep (what the uncached path does) gives {}", c.name, if accepted { "accepted" } else { "refused" }, if c.valid { "accepted" } else { "refused" }),
+                    wit.clone(),
+                );
+            }
             if accepted != c.valid {
                 c04.violation(
                     &format!("block_path.{}@{}", if accepted { "invalid_tx_accepted" } else { "valid_tx_rejected" }, c.name),
@@ -1070,6 +1093,10 @@ pub fn run(args: &Args) -> i32 {
     c04.require("history_independence_checks", 10);
     c14.require("events_compared", 10);
     c14.require("answer_vectors_compared", 1);
+    if n_ctx >= 4 {
+        c14.require("contexts_with_system_cell_cache", 1);
+        c14.require("contexts_without_system_cell_cache", 1);
+    }
     c04.assume("expected verdicts come from construction: thresholds (block numbers, epochs, header timestamps, past medians, cellbase positions) are read from the RefChain model; scripts are the bundled always_success / always_failure / secp256k1 binaries");
     c04.assume("pool path: only candidates whose verdict does not depend on the pool's conservative commit-position estimate or fee policy carry an expectation; soundness (accepted => valid at n) is checked for all");
     c14.assume("lru capacity 0 disables a cache (measured in DESIGN section 9)");
